@@ -3120,6 +3120,52 @@ impl Collection {
         rt
     }
 
+    /// Checks, without writing anything, that [`update`](Self::update) of
+    /// document `id` with `fields` would not be refused for the *content* it
+    /// carries: the fields are applied to the stored document exactly as
+    /// `update` applies them (normalization, per-field validation, the
+    /// complexity budget), the result is validated against the schema, and
+    /// its encoding is measured against the storage's object size limit.
+    ///
+    /// For a caller that commits several documents as one unit and has no way
+    /// to take a write back: it can find the refusal before its first write.
+    /// Uniqueness conflicts and storage failures are not predicted.
+    pub async fn check_update(
+        &self,
+        id: DocumentId,
+        fields: BTreeMap<String, FieldValue>,
+    ) -> Result<(), DBError> {
+        let (doc, _) = self
+            .storage
+            .get::<DocumentOwned>(&Self::doc_path(id))
+            .await?;
+        let mut doc = Document::try_from_doc(self.schema(), doc)?;
+        for (field_name, fv) in fields {
+            if field_name == Schema::ID_KEY && fv != FieldValue::U64(id) {
+                return Err(DBError::Generic {
+                    name: self.name.clone(),
+                    source: format!("update cannot change {:?} of document {id}", Schema::ID_KEY)
+                        .into(),
+                });
+            }
+            doc.set_field(&field_name, fv)?;
+        }
+        self.schema.validate(doc.fields())?;
+        self.storage.check_object_size(&Self::doc_path(id), &doc)
+    }
+
+    /// Checks, without writing anything, that [`add_from`](Self::add_from)
+    /// of `doc` would not be refused for its content (see
+    /// [`check_update`](Self::check_update)).
+    pub fn check_add_from<T>(&self, doc: &T) -> Result<(), DBError>
+    where
+        T: Serialize,
+    {
+        let doc = Document::try_from(self.schema(), doc)?;
+        self.schema.validate(doc.fields())?;
+        self.storage.check_object_size(&Self::doc_path(0), &doc)
+    }
+
     async fn update_impl(
         &self,
         id: DocumentId,
